@@ -494,6 +494,8 @@ def idx(x, i):
             if i < pos + pl:
                 return idx(p, i - pos)
             pos += pl
+    if isinstance(x, T) and x.op == "i2b" and x.args[1] == 1 and i in (0, -1) and _is_byte_term(x.args[0]):
+        return x.args[0]  # the one byte of the one-byte encoding of a byte value
     if isinstance(x, T) and isinstance(i, int) and not isinstance(i, bool) and x.op in ("slice", "sized", "i2b", "hash"):
         n = blen(x)
         if isinstance(n, int) and not isinstance(n, bool):
